@@ -567,6 +567,127 @@ RoundTripLaw(d) == \A v \in VS(d) :
     /\ Val(d, v, None, "write") = {Ok(v)}
     /\ EqModFloat(d, v, v)
 
+(* ------------------------------------------- C03: description, rebuild, compatibility *)
+(* A datainfo is an abstract JSON object O(kv): keys sorted (member order kept for the       *)
+(* "members" of a struct), numbers N / I, texts Txt, lists L.  For C03 double and scaled     *)
+(* types carry the presentation properties too: unit, fmt, and for scaled abs, rel;          *)
+(* rel = -1 stands for the default relative resolution (1.2e-7, not representable in ticks). *)
+Txt(s) == [j |-> "text", s |-> s]
+HasKey(o, k) == k \in Keys(o)
+NumT(v) == IF v.j = "int" THEN v.n * U ELSE v.t           \* ticks of an exact number
+IntOf(v) == IF v.j = "int" THEN v.n ELSE v.t \div U
+RelOf(v) == IF NumT(v) = 0 THEN 0 ELSE IF NumT(v) = 2 THEN 1 ELSE 99
+GetT(i, k, dflt) == IF HasKey(i, k) THEN NumT(ValOf(i, k)) ELSE dflt
+GetI(i, k, dflt) == IF HasKey(i, k) THEN IntOf(ValOf(i, k)) ELSE dflt
+GetS(i, k, dflt) == IF HasKey(i, k) THEN ValOf(i, k).s ELSE dflt
+
+RECURSIVE Rebuild(_), Describe(_)
+(* the datatype a datainfo denotes (missing keys = defaults, unknown keys ignored) *)
+Rebuild(i) ==
+    LET ty == GetS(i, "type", "?") IN
+    CASE ty = "double" -> [k |-> "double", min |-> GetT(i, "min", -NoLim), max |-> GetT(i, "max", NoLim),
+                           abs |-> GetT(i, "absolute_resolution", 0),
+                           rel |-> IF HasKey(i, "relative_resolution") THEN RelOf(ValOf(i, "relative_resolution")) ELSE -1,
+                           unit |-> GetS(i, "unit", ""), fmt |-> GetS(i, "fmtstr", "%g")]
+      [] ty = "int" -> [k |-> "int", min |-> GetI(i, "min", 0), max |-> GetI(i, "max", 0)]
+      [] ty = "scaled" -> LET sc == GetT(i, "scale", 1) IN
+                          [k |-> "scaled", scale |-> sc, min |-> GetI(i, "min", 0) * sc, max |-> GetI(i, "max", 0) * sc,
+                           abs |-> GetT(i, "absolute_resolution", sc),
+                           rel |-> IF HasKey(i, "relative_resolution") THEN RelOf(ValOf(i, "relative_resolution")) ELSE -1,
+                           unit |-> GetS(i, "unit", ""), fmt |-> GetS(i, "fmtstr", "%g")]
+      [] ty = "bool" -> [k |-> "bool"]
+      [] ty = "enum" -> LET m == ValOf(i, "members") IN
+                        [k |-> "enum", mem |-> SortSeq([x \in 1 .. Len(m.kv) |-> [n |-> m.kv[x].k, v |-> IntOf(m.kv[x].v)]],
+                                                       LAMBDA a, b : a.v < b.v)]
+      [] ty = "string" -> [k |-> "string", minc |-> GetI(i, "minchars", 0), maxc |-> GetI(i, "maxchars", NoLim),
+                           utf8 |-> IF HasKey(i, "isUTF8") THEN ValOf(i, "isUTF8").b ELSE FALSE]
+      [] ty = "blob" -> [k |-> "blob", minb |-> GetI(i, "minbytes", 0), maxb |-> GetI(i, "maxbytes", 0)]
+      [] ty = "array" -> [k |-> "array", el |-> Rebuild(ValOf(i, "members")), minlen |-> GetI(i, "minlen", 0),
+                          maxlen |-> GetI(i, "maxlen", 0)]
+      [] ty = "tuple" -> LET m == ValOf(i, "members").xs IN [k |-> "tuple", els |-> [x \in 1 .. Len(m) |-> Rebuild(m[x])]]
+      [] ty = "struct" -> LET m == ValOf(i, "members").kv IN
+                          [k |-> "struct", mem |-> [x \in 1 .. Len(m) |-> [n |-> m[x].k, t |-> Rebuild(m[x].v)]],
+                           opt |-> IF HasKey(i, "optional")
+                                   THEN [x \in 1 .. Len(ValOf(i, "optional").xs) |-> ValOf(i, "optional").xs[x].s]
+                                   ELSE [x \in 1 .. Len(m) |-> m[x].k]]
+      [] OTHER -> [k |-> "invalid"]
+
+(* a canonical datainfo of d: only the non-default properties (keys in sorted order) *)
+KV(k, v) == [k |-> k, v |-> v]
+OptKV(cond, k, v) == IF cond THEN <<KV(k, v)>> ELSE <<>>
+Describe(d) ==
+    CASE d.k = "double" ->
+           O(OptKV(d.abs # 0, "absolute_resolution", N(d.abs)) \o OptKV(d.fmt # "%g", "fmtstr", Txt(d.fmt))
+             \o OptKV(d.max # NoLim, "max", N(d.max)) \o OptKV(d.min # -NoLim, "min", N(d.min))
+             \o OptKV(d.rel # -1, "relative_resolution", N(2 * d.rel)) \o <<KV("type", Txt("double"))>>
+             \o OptKV(d.unit # "", "unit", Txt(d.unit)))
+      [] d.k = "int" -> O(<<KV("max", I(d.max)), KV("min", I(d.min)), KV("type", Txt("int"))>>)
+      [] d.k = "scaled" ->
+           O(OptKV(d.abs # d.scale, "absolute_resolution", N(d.abs)) \o OptKV(d.fmt # "%g", "fmtstr", Txt(d.fmt))
+             \o <<KV("max", I(d.max \div d.scale)), KV("min", I(d.min \div d.scale))>>
+             \o OptKV(d.rel # -1, "relative_resolution", N(2 * d.rel))
+             \o <<KV("scale", N(d.scale)), KV("type", Txt("scaled"))>> \o OptKV(d.unit # "", "unit", Txt(d.unit)))
+      [] d.k = "bool" -> O(<<KV("type", Txt("bool"))>>)
+      [] d.k = "enum" -> O(<<KV("members", O([x \in 1 .. Len(d.mem) |-> KV(d.mem[x].n, I(d.mem[x].v))])), KV("type", Txt("enum"))>>)
+      [] d.k = "string" -> O(OptKV(d.utf8, "isUTF8", B(TRUE)) \o OptKV(d.maxc # NoLim, "maxchars", I(d.maxc))
+                             \o OptKV(d.minc # 0, "minchars", I(d.minc)) \o <<KV("type", Txt("string"))>>)
+      [] d.k = "blob" -> O(<<KV("maxbytes", I(d.maxb))>> \o OptKV(d.minb # 0, "minbytes", I(d.minb)) \o <<KV("type", Txt("blob"))>>)
+      [] d.k = "array" -> O(<<KV("maxlen", I(d.maxlen)), KV("members", Describe(d.el))>>
+                            \o OptKV(d.minlen # 0, "minlen", I(d.minlen)) \o <<KV("type", Txt("array"))>>)
+      [] d.k = "tuple" -> O(<<KV("members", L([x \in 1 .. Len(d.els) |-> Describe(d.els[x])])), KV("type", Txt("tuple"))>>)
+      [] d.k = "struct" ->
+           O(<<KV("members", O([x \in 1 .. Len(d.mem) |-> KV(d.mem[x].n, Describe(d.mem[x].t))]))>>
+             \o OptKV(Rng(d.opt) # Names(d), "optional", L([x \in 1 .. Len(d.opt) |-> Txt(d.opt[x])]))
+             \o <<KV("type", Txt("struct"))>>)
+
+(* add the presentation properties to every double / scaled node (u = unit, f = format) *)
+RECURSIVE Deco(_, _, _, _)
+Deco(d, u, f, dflt) ==
+    CASE d.k = "double" -> [k |-> "double", min |-> d.min, max |-> d.max, abs |-> d.abs, rel |-> IF dflt THEN -1 ELSE d.rel,
+                            unit |-> u, fmt |-> f]
+      [] d.k = "scaled" -> [k |-> "scaled", scale |-> d.scale, min |-> d.min, max |-> d.max,
+                            abs |-> IF dflt THEN d.scale ELSE 0, rel |-> IF dflt THEN -1 ELSE 1, unit |-> u, fmt |-> f]
+      [] d.k = "array" -> [d EXCEPT !.el = Deco(d.el, u, f, dflt)]
+      [] d.k = "tuple" -> [d EXCEPT !.els = [x \in 1 .. Len(d.els) |-> Deco(d.els[x], u, f, dflt)]]
+      [] d.k = "struct" -> [d EXCEPT !.mem = [x \in 1 .. Len(d.mem) |-> [n |-> d.mem[x].n, t |-> Deco(d.mem[x].t, u, f, dflt)]]]
+      [] OTHER -> d
+
+(* law on the model: the description denotes the type, also with unknown keys added (must-ignore) *)
+WithUnknown(i) == O(i.kv \o <<KV("x-unknown", I(1))>>)
+DescribeLaw(d) == Rebuild(Describe(d)) = d /\ Rebuild(WithUnknown(Describe(d))) = d
+
+(* compatibility by its meaning: every value valid for a is valid for b, computed over a finite  *)
+(* universe that is exact for interval-like and finite value sets                              *)
+RECURSIVE CU(_), Supported(_, _)
+AnyOf(S0) == CHOOSE x \in S0 : TRUE
+CU(a) ==
+    CASE a.k = "int" -> IF a.max - a.min <= 24 THEN {I(n) : n \in a.min .. a.max} ELSE VS(a)
+      [] a.k = "string" -> VS(a) \cup (IF a.maxc = NoLim THEN {Plain(WIREBIG + 1)} \cup (IF a.utf8 THEN {Utf(WIREBIG + 1)} ELSE {}) ELSE {})
+      [] a.k = "array" -> UNION {{L(Rep(v, n)) : v \in (IF n = 0 THEN {Null} ELSE CU(a.el))} : n \in {a.minlen, a.maxlen}}
+      [] a.k = "tuple" ->
+           LET base == [x \in 1 .. Len(a.els) |-> AnyOf(CU(a.els[x]))] IN
+           UNION {{L([base EXCEPT ![x] = v]) : v \in CU(a.els[x])} : x \in 1 .. Len(a.els)}
+      [] a.k = "struct" ->
+           LET base == [x \in 1 .. Len(a.mem) |-> KV(a.mem[x].n, AnyOf(CU(a.mem[x].t)))]
+               opt == Rng(a.opt) IN
+           UNION {{O([base EXCEPT ![x] = KV(a.mem[x].n, v)]) : v \in CU(a.mem[x].t)} : x \in 1 .. Len(a.mem)}
+           \cup {O(SelectSeq(base, LAMBDA e : e.k \notin opt))} \cup {O(SelectSeq(base, LAMBDA e : e.k # o)) : o \in opt}
+      [] OTHER -> VS(a)
+MayAccept(b, v) == \E o \in Val(b, v, None, "write") : o.ok
+Subset(a, b) == \A v \in CU(a) : MayAccept(b, v)
+(* the pairings compatible() is written to support *)
+Supported(a, b) ==
+    CASE a.k = "double" -> b.k \in {"double", "scaled"}
+      [] a.k = "scaled" -> b.k \in {"double", "scaled"}
+      [] a.k = "int" -> b.k \in {"int", "double", "scaled", "enum", "bool"}
+      [] a.k \in {"bool", "enum", "string", "blob"} -> b.k = a.k
+      [] a.k = "array" -> b.k = "array" /\ Supported(a.el, b.el)
+      [] a.k = "tuple" -> b.k = "tuple" /\ Len(a.els) = Len(b.els) /\ \A x \in 1 .. Len(a.els) : Supported(a.els[x], b.els[x])
+      [] a.k = "struct" -> b.k = "struct" /\ Names(a) \subseteq Names(b)
+                           /\ \A x \in 1 .. Len(a.mem) : Supported(a.mem[x].t, TypeOf(b, a.mem[x].n))
+(* allowed verdicts of a.compatible(b): TRUE = passes *)
+AllowedPass(a, b) == IF ~Subset(a, b) THEN {FALSE} ELSE IF Supported(a, b) THEN {TRUE} ELSE {TRUE, FALSE}
+
 (* --------------------------------------------------------------- type catalogue *)
 Dbl(lo, hi, a, r) == [k |-> "double", min |-> lo, max |-> hi, abs |-> a, rel |-> r]
 IntT(lo, hi) == [k |-> "int", min |-> lo, max |-> hi]
@@ -617,6 +738,34 @@ TypeSeq(tier) == CASE tier = "mc" -> Leaves \o SubSeq(Depth1, 1, 2 * NL)
                    [] tier = "quick" -> Leaves \o Depth1 \o Depth2
                    [] tier = "thorough" -> Leaves \o Depth1 \o Depth2 \o AllPairs \o Depth3
 
+(* types for compatibility pairs: nested, overlapping and disjoint value sets of every kind *)
+CLeaves == <<Dbl(0, 160, 0, 0), Dbl(0, 80, 0, 0), Dbl(-16, 160, 4, 0), Dbl(-NoLim, NoLim, 0, 0), Dbl(16, 200, 0, 1),
+             IntT(0, 10), IntT(0, 1), IntT(1, 2), IntT(-5, 20), IntT(0, 5),
+             Scl(4, 0, 160), Scl(16, 0, 80), Scl(4, -16, 320),
+             BoolT,
+             Enm(<<[n |-> "a", v |-> 1], [n |-> "b", v |-> 2]>>), Enm(<<[n |-> "off", v |-> 0], [n |-> "on", v |-> 1]>>),
+             Enm(<<[n |-> "off", v |-> 0], [n |-> "a", v |-> 1], [n |-> "b", v |-> 2], [n |-> "x", v |-> 5]>>),
+             Enm(<<[n |-> "x", v |-> 1], [n |-> "big", v |-> 200]>>),
+             Strg(0, NoLim, TRUE), Strg(0, NoLim, FALSE), Strg(1, 3, FALSE), Strg(0, 8, TRUE), Strg(2, 3, FALSE),
+             Blob(0, 6), Blob(1, 3), Blob(2, 8)>>
+NC == Len(CLeaves)
+CSmall == <<Dbl(0, 160, 0, 0), Dbl(0, 80, 0, 0), IntT(0, 10), IntT(0, 1), Scl(4, 0, 160), BoolT,
+            Enm(<<[n |-> "off", v |-> 0], [n |-> "on", v |-> 1]>>), Strg(1, 3, FALSE), Strg(0, 8, TRUE), Blob(1, 3)>>
+NCS == Len(CSmall)
+CContainers ==
+    [i \in 1 .. NCS |-> Arr(CSmall[i], 0, 2)] \o [i \in 1 .. NCS |-> Arr(CSmall[i], 1, 3)]
+    \o [i \in 1 .. NCS |-> Tup(<<CSmall[i], CSmall[(i % NCS) + 1]>>)]
+    \o [i \in 1 .. NCS |-> AB(CSmall[i], CSmall[(i % NCS) + 1], <<"b">>)]
+    \o [i \in 1 .. NCS |-> AB(CSmall[i], CSmall[(i % NCS) + 1], <<>>)]
+    \o [i \in 1 .. NCS |-> AB(CSmall[i], CSmall[(i % NCS) + 1], <<"a", "b">>)]
+    \o <<Stc(<<M("a", CSmall[3])>>, <<>>), Stc(<<M("a", CSmall[3]), M("b", CSmall[8]), M("c", CSmall[6])>>, <<"c">>),
+         Tup(<<CSmall[3]>>), Tup(<<CSmall[3], CSmall[8], CSmall[6]>>), Arr(Arr(CSmall[3], 0, 2), 0, 2), Arr(Arr(CSmall[4], 0, 2), 0, 3)>>
+CTypes(tier) == IF tier = "thorough" THEN CLeaves \o CContainers \o Depth2 ELSE CLeaves \o CContainers
+(* types whose description / rebuild / copy is examined: the C01 catalogue with presentation properties *)
+ETypes(tier) == LET base == TypeSeq(IF tier = "thorough" THEN "quick" ELSE "quick") IN
+    [i \in 1 .. Len(base) |-> Deco(base[i], IF i % 3 = 0 THEN "" ELSE IF i % 3 = 1 THEN "K" ELSE "$/min",
+                                            IF i % 2 = 0 THEN "%g" ELSE "%.3f", i % 4 < 2)]
+
 (* ------------------------------------------------------- the model's own laws *)
 (* One TLC state per datatype; the laws quantify over all its cases.             *)
 CONSTANTS Tier, Shard, NShards
@@ -654,5 +803,6 @@ Idempotent == IdempotentR(dt, CaseRecs(dt))
 PrevFree == PrevFreeR(dt, CaseRecs(dt))
 NonVacuous == NonVacuousR(dt, CaseRecs(dt))
 RoundTrip == RoundTripLaw(dt) /\ VS(dt) # {}
+DescribeRebuild == DescribeLaw(Deco(dt, "K", "%.3f", TRUE)) /\ DescribeLaw(Deco(dt, "$", "%g", FALSE))
 AllLaws(d, R) == TotalR(d, R) /\ SoundR(d, R) /\ IdempotentR(d, R) /\ PrevFreeR(d, R) /\ NonVacuousR(d, R)
 =============================================================================
